@@ -140,7 +140,7 @@ Definition con_arity_ok (c : con) (n : nat) : bool :=
 Fixpoint wf_ty (under_nt : bool) (t : ty) : bool :=
   match t with
   | TLiteral vs => negb (Nat.eqb (length vs) 0) && forallb scalar_val vs
-  | TNewType a => wf_ty true a
+  | TNewType a => negb (is_noneT a) && wf_ty true a      (* NewType("N", None): mashumaro refuses the class *)
   | TUnion ts => Nat.leb 2 (length ts) && forallb (fun a => negb (is_union a)) ts && forallb (wf_ty under_nt) ts
   | TTuple ts => forallb (wf_ty under_nt) ts
   | TTupleVar a => wf_ty under_nt a
